@@ -228,6 +228,9 @@ class Engine(OpsMixin):
             return self.decide(v.t != 0)
         if isinstance(v, SymBV):
             return self.decide(v.t != 0)
+        if type(v).__name__ == "SymBlob":
+            from . import blob
+            return self.truth(self.cmp("Gt", blob.blob_len(self, v), 0))
         if isinstance(v, SymStr):
             return len(v.cs) > 0
         if isinstance(v, SymBytes):
@@ -329,7 +332,10 @@ class Engine(OpsMixin):
         t = cond.t
         self.stats["assert_queries"] += 1
         t0 = time.time()
-        r = self.check(z3.Not(t))
+        try:
+            r = self.check(z3.Not(t))
+        except SolverUnknown as e:
+            raise SolverUnknown(f"{e} while deciding {site}")
         self.stats["assert_s"] += time.time() - t0
         if r == z3.unsat:
             self.stats["assert_unsat"] += 1
@@ -1121,6 +1127,9 @@ class Engine(OpsMixin):
         return v
 
     def length(self, obj):
+        if type(obj).__name__ == "SymBlob":
+            from . import blob
+            return blob.blob_len(self, obj)
         if isinstance(obj, SymStr):
             return len(obj.cs)
         if isinstance(obj, SymBytes):
@@ -1306,6 +1315,9 @@ class Engine(OpsMixin):
         return self.eval(s, f)
 
     def getitem(self, obj, idx):
+        if type(obj).__name__ == "SymBlob":
+            from . import blob
+            return blob.getitem(self, obj, idx)
         if isinstance(obj, LazyStr):
             obj = self.force_str(obj)
         if isinstance(idx, SymBool):
